@@ -30,7 +30,7 @@ def spec_violated(rep):
         f = op.split(" ")
         if f[0] == "dec" and line.startswith("ok") and line[3:] != f[2]:
             return "Decompress(%s) of damaged data returned different data with a nil error" % f[1]
-        if f[0] in ("rt", "rtb") and line != "ok":
+        if f[0] in ("rt", "rtb", "rtc") and line != "ok":
             return "round trip through %s returned %s" % (f[1], line)
         if line == "panic":
             return "Decompress(%s) panicked" % f[1]
@@ -59,7 +59,7 @@ def run(ctx):
     by_alg = {}
     for op, rep in zip(c.ops, c.impl):
         f = op.split(" ")
-        if f[0] in ("dec", "rt", "rtb"):
+        if f[0] in ("dec", "rt", "rtb", "rtc"):
             lib = f[0] if f[0] != "dec" else ("lib-" + ("ok" if f[4].startswith("O:") else f[4]))
             k = "%s/%s/%s" % (f[1], lib, rep.split(" ")[0])
             by_alg[k] = by_alg.get(k, 0) + 1
@@ -69,7 +69,7 @@ def run(ctx):
         rule=("inputs = random/compressible/run-length payloads (0..600 B quick, ..4000 B thorough) per algorithm; each compressed form is "
               "bit-flipped, overwritten, truncated, extended, tail-flipped or left intact; an op is non-trivial when it is a dec or rt line; "
               "distinct = distinct op lines; wrapper reply compared with the Lean wrapper model fed with the library's own verdict"),
-        samples=[{"op": c.ops[i][:160], "impl": c.impl[i][:80]} for i in range(1, min(len(c.ops), 6))],
+        samples=[{"op": c.ops[i][:160], "impl": c.impl[i][:80]} for i in range(1, min(len(c.ops), len(c.impl), 6))] or [{"op": "none"}],
         evaluations=len(c.ops), distinct_nontrivial=max(distinct - 1, 0),
         extra_cov={"correspondence": {"domain": "C24", "op_lines": len(c.ops), "mismatching_lines": len(c.mismatch),
                                       "by_algorithm_lib_wrapper": by_alg,
